@@ -124,6 +124,8 @@ def run(chk: Check) -> None:
     codec_state(chk, "R08.5", ("auxdata", "serialization"))
     no_result_caches(chk, "R08.5")
     value_passthrough(chk, "R08.5")
+    from .purity import stream_discipline
+    stream_discipline(chk, "R08.5")
 
 
 def _s(ev) -> str:
